@@ -264,6 +264,14 @@ def run(s):
     s.oblige("C05.spectrum_reaches_interpolation_mode_by_mode", spectrum_ob, ["mode_gamma.interpolate_modes"], kind="finite")
     s.oblige("C05.static_table_is_the_filled_table", C08.apply_table, ["elast_dat.apply_symetry_on_elast_data"], kind="finite")
     # ---------------- bounded end-to-end
+    # "with the crystal-system filling applied first when requested": the packaged relation tables are data the totals depend on; that they are the Laue invariants is C08's
+    # obligation and is registered here as well (a sign flipped in a constraints file changes c26 of a tetragonal7 calculation by 2 |c16|)
+    from props import C08, C15
+    sub = core.SubSession(s, lambda n: n.replace("C08.", "C05.filling."), lambda n: n.startswith("C08.relations_equal_invariants["))
+    sub.__dict__["relations_only"] = True
+    C08.run(sub)
+    # the totals are DELIVERED through the writer rules (keyword -> quantity, file name, unit): C15's registry and writer-path obligations, registered here as well
+    C15.run(core.SubSession(s, lambda n: n.replace("C15.", "C05.delivery."), lambda n: n in ("C15.registry", "C15.writer_paths")))
     end_to_end(s)
     s.min_obligations = 13
 
